@@ -84,7 +84,10 @@ Frame(f, pos) ==
                      \* the recorded cut lies within the source thread as it is, and names one of its messages at or before the cut
                      <<(f.t \in {"branched", "handoff"} /\ Get(cnt, "continuity:" \o f.pt, 0) > 0) => f.ps < Get(cnt, "continuity:" \o f.pt, 0), "LineageCutWithinSource">>,
                      <<(f.t \in {"branched", "handoff"} /\ f.pm \in DOMAIN mwhere) => (mwhere[f.pm][1] = f.pt /\ mwhere[f.pm][2] <= f.ps), "LineageNamesSourceMessageAtOrBeforeCut">>,
-                     <<(Strict /\ f.t \in {"branched", "handoff"} /\ f.pm # "") => f.pm \in DOMAIN mwhere, "LineageNamesSourceMessageAtOrBeforeCut">>}
+                     <<(Strict /\ f.t \in {"branched", "handoff"} /\ f.pm # "") => f.pm \in DOMAIN mwhere, "LineageNamesSourceMessageAtOrBeforeCut">>,
+                     \* a compaction checkpoint's cut is a message of this thread, identified by that message's seq and id (C09)
+                     <<(f.t = "ckpt" /\ f.pm \in DOMAIN mwhere) => mwhere[f.pm] = <<f.s, f.ps>>, "CheckpointNamesItsCutMessage">>,
+                     <<(Strict /\ f.t = "ckpt" /\ f.pm # "") => f.pm \in DOMAIN mwhere, "CheckpointNamesItsCutMessage">>}
         ELSE IF isS THEN {<<(f.t = "ss") = (Get(sess, f.s, "none") = "none"), "SessionStartsOnceFirst">>,
                           <<Get(sess, f.s, "none") # "ended", "NothingAfterSessionEnd">>}
         ELSE IF isT THEN {<<(f.t = "tspawn") = (Get(task, f.s, "none") = "none"), "TaskOpensWithSpawnOnly">>,
